@@ -36,6 +36,10 @@ THEOREMS = [
     "IwModel.C13.print_ascii", "IwModel.C13.parse_print_partial", "IwModel.C13.ftoa_number",
     "IwModel.C13.print_valid_ftoa", "IwModel.C13.parse_print_ftoa_partial", "IwModel.C13.key_nul_truncated",
     "IwModel.C13.utf8_roundtrip", "IwModel.C13.generated_ok",
+    "IwModel.C13.softf64_rounding", "IwModel.C13.strtod_token_contract", "IwModel.C13.strtod_int_exact",
+    "IwModel.C13.strtod_int15", "IwModel.C13.strtod_sign_symmetry", "IwModel.C13.strtod_sign_exception",
+    "IwModel.C13.strtod_int_monotone_partial", "IwModel.C13.strtod_f8_witnesses",
+    "IwModel.C13.parse_render_strtod_partial", "IwModel.C13.generated_pow10_ok",
 ]
 
 H = lambda b: binascii.hexlify(bytes(b)).decode() or "-"
